@@ -138,8 +138,12 @@ def run_nodes(shard, tier, seed):
                     c['valid_score_write_failed'] += 1
                     failed = True
                     break
-                data = open(path, 'rb').read()
+                data = open(path, 'rb').read() if os.path.exists(path) else None
                 c['successful_writes'] += 1
+                if data is None:
+                    viol.append({'sig': {'kind': 'destination-missing-after-successful-write', 'prior': prior},
+                                 'case': {'score': docs.to_text(el)[:3000]}, 'detail': {}})
+                    break
                 if data != want and prior != 'absent':
                     kind = 'written-bytes-differ'
                     if data.startswith(want):
@@ -154,7 +158,7 @@ def run_nodes(shard, tier, seed):
             if os.path.exists(path):
                 os.unlink(path)
             lib.call(score.write, path)
-            data = open(path, 'rb').read()
+            data = open(path, 'rb').read() if os.path.exists(path) else b''
             if data != want:
                 kind = 'written-bytes-differ'
                 try:
